@@ -78,6 +78,9 @@ def prob_vectors(ctx, g, n):
     # sums slightly below 1 (inside validate_prob_dist's tolerance): the largest double below 1 falls through the loop
     sub = [[0.5, 0.5 - 2.0 ** -50], [0.25, 0.25, 0.5 - 2.0 ** -51], [0.25, 0.75 - 2.0 ** -52, 0.0]]
     out += [("dyadic-subnormalised", np.array(p)) for p in sub]
+    # normalised non-dyadic vectors whose FLOAT running sum stays below 1 (passes validate_prob_dist), with exact zeros
+    out += [("generic-fixed", np.array(p)) for p in ([0.1] * 10 + [0.0], [0.1] * 10 + [0.0, 0.0], [0.0] + [0.1] * 10,
+                                                     [0.3, 0.0, 0.3, 0.3, 0.1, 0.0], [1 / 3, 1 / 3, 1 / 3, 0.0])]
     for t in range(n):
         m = int(g.integers(2, 17))
         w = g.integers(0, 64, size=m).astype(float)
@@ -108,11 +111,22 @@ def prob_vectors(ctx, g, n):
     return out
 
 
-def uniforms_for(kind, p, g, nrand):
-    """uniforms in [0,1): boundaries (dyadic only), neighbours, extremes, random"""
+def float_cums(p):
+    """the running sums exactly as `_random_number_to_data` computes them (sequential float additions from 0.0)"""
+    out, c = [], 0.0
+    for x in p:
+        c += float(x)
+        out.append(c)
+    return out
+
+
+def uniforms_for(kind, p, g, nrand, exact_boundaries=False):
+    """uniforms in [0,1): boundaries, neighbours, extremes, random. exact_boundaries=True: the float running sums and their
+    two neighbours for EVERY vector, nothing filtered (for comparisons that use the float sums themselves); otherwise
+    non-dyadic vectors keep 1e-9 away from the boundaries (the exact-rational model adds exactly, the code in floats)."""
     us = [0.0, float(np.nextafter(1.0, 0.0)), 0.5]
     cs = np.cumsum(p)
-    if kind.startswith("dyadic"):
+    if kind.startswith("dyadic") or exact_boundaries:
         for c in cs:
             for u in (c, np.nextafter(c, 0.0), np.nextafter(c, 2.0)):
                 if 0.0 <= u < 1.0:
@@ -123,7 +137,7 @@ def uniforms_for(kind, p, g, nrand):
                 if 0.0 <= u < 1.0:
                     us.append(float(u))
     us += [float(x) for x in g.random(nrand)]
-    if not kind.startswith("dyadic"):
+    if not kind.startswith("dyadic") and not exact_boundaries:
         us = [u for u in us if np.min(np.abs(cs - u)) > 1e-9 or u in (0.0,)]
         us = [u for u in us if not (u == 0.0 and np.min(np.abs(cs)) < 1e-9)]
     return us
@@ -200,6 +214,13 @@ def correspondence(ctx):
             ctx.case(("r2d", tuple(p), u), nontrivial=True, sample={"op": "r2d", "probs": p.tolist(), "u": u})
         ctx.count(f"prob vectors {kind}")
         ctx.count(f"outcomes {len(p)}")
+    # (1b) the same loop on the FLOAT running sums (driver op r2dcs): every vector, boundaries exact, nothing filtered
+    for kind, p in vecs:
+        cums = float_cums(p)
+        for u in uniforms_for(kind, p, g, 6, exact_boundaries=True):
+            got = int(dg._random_number_to_data(p, np.float64(u)))
+            pend.append(("r2dcs", (p.tolist(), u), got, drv.ask("r2dcs", len(p), qlist(cums), q(u))))
+            ctx.case(("r2dcs", tuple(p), u), nontrivial=True)
     got = int(dg._random_number_to_data(np.array([]), np.float64(0.3)))
     pend.append(("r2d", ([], 0.3), got, drv.ask("r2d", "-", q(0.3))))
     # (2) generate_data_from_prob_dist: the model is fed the uniforms an MT19937 generator with that seed produces
@@ -282,6 +303,32 @@ def correspondence(ctx):
         pend.append(("dataset", (k, nums, seed), [[int(x) for x in d] for d in got],
                      drv.ask("dataset", qlist(tape), "|".join(f"{qlist(p)}@{n}" for p, n in zip(ps, nums)))))
         ctx.case(("dataset", t, seed, tuple(nums)), sample={"op": "dataset", "data_nums": nums, "seed": seed})
+    # (4b) LIST of seed arguments (ints, shared generator objects, None): executes genDatasetArgs -> genData -> toStream with
+    #      the global state, held generators and fresh int-seeded generators of the model, all on recorded tapes
+    dyv = [v for k, v in vecs if k.startswith("dyadic")]
+    for t in range(40 if ctx.quick else 300):
+        k = int(g.integers(2, 6))
+        ps = [dyv[int(g.integers(0, len(dyv)))] for _ in range(k)]
+        nums = [int(x) for x in g.integers(0, 25, size=k)]
+        s1, s2 = int(g.integers(0, 2 ** 32)), int(g.integers(0, 2 ** 32))
+        pat = [[s1] * 5, [s1, s2, s1, s2, s1], [s1, None, s1, None, s2], ["g0", s1, "g0", "g1", "g0"], ["g0"] * 5,
+               [None, "g1", None, "g1", s2], [0, 0, 1, 0, 1]][t % 7][:k]
+        gens = [MT(s1 + 1), MT(s2 + 1)]
+        args = [gens[int(a[1])] if isinstance(a, str) else a for a in pat]
+        perturb(s2 % 997, 5)
+        got = [[int(x) for x in d] for d in dg.generate_dataset_from_prob_dists(ps, nums, args)]
+        perturb(s2 % 997, 5)
+        glob_tape = np.random.random(sum(n for n, a in zip(nums, pat) if a is None))
+        gen_tapes = [MT(s1 + 1).random(sum(n for n, a in zip(nums, pat) if a == "g0")),
+                     MT(s2 + 1).random(sum(n for n, a in zip(nums, pat) if a == "g1"))]
+        ints = sorted({a for a in pat if isinstance(a, int)})
+        seed_tapes = {a: MT(a).random(max(n for n, b in zip(nums, pat) if b == a)) for a in ints}
+        enc_arg = lambda a: "N" if a is None else (f"G{a[1]}" if isinstance(a, str) else f"I{a}")   # noqa: E731
+        pend.append(("dsargs", (pat, nums), got,
+                     drv.ask("dsargs", qlist(glob_tape), "|".join(qlist(x) for x in gen_tapes),
+                             "|".join(f"{a}={qlist(seed_tapes[a])}" for a in ints) or "~",
+                             "|".join(f"{enc_arg(a)}@{qlist(pp)}@{n}" for a, pp, n in zip(pat, ps, nums)))))
+        ctx.case(("dsargs", t, tuple(str(a) for a in pat), tuple(nums)), sample={"op": "dsargs", "seeds": [str(a) for a in pat], "data_nums": nums})
     # (5) generate_empi_dists_sequence_from_prob_dists: multinomial draws consumed schedule-major on one stream
     for t in range(80 if ctx.quick else 600):
         k = int(g.integers(1, 4))
@@ -300,12 +347,15 @@ def correspondence(ctx):
         line = out[i]
         if line in ("bad-op", "tape-short", "no-generator"):
             ok = False
-        elif op == "r2d":
+        elif op in ("r2d", "r2dcs"):
             ok = int(line) == impl
         elif op == "data":
             ok = ([] if line == "-" else [int(x) for x in line.split(",")]) == impl
         elif op in ("empi", "pipe"):
             ok = same_empi(impl, parse_empi(line))
+        elif op == "dsargs":
+            body, left = line.rsplit(" ", 1)
+            ok = left == "left=0,0,0" and [[] if d == "-" else [int(x) for x in d.split(",")] for d in body.split("|")] == impl
         elif op == "dataset":
             body, left = line.rsplit(" ", 1)
             ok = left == "left=0" and [[] if d == "-" else [int(x) for x in d.split(",")] for d in body.split("|")] == impl
@@ -542,9 +592,13 @@ def public_boundary(ctx, entry, run, jobs, mk, rep, flat=False):
         for u, d, w in zip(us, data, want):
             if not (0 <= d < len(p)):
                 ctx.violate(f"C14/{entry}/boundary-uniforms/out-of-range", f"u={float(u)!r} -> {d} for {len(p)} outcomes", rep); return
-            if u < tot and p[d] <= 0:
-                ctx.violate(f"C14/{entry}/boundary-uniforms/zero-probability-outcome",
-                            f"u={float(u)!r} -> outcome {d} of probability 0 (probs {np.asarray(p).tolist()})", rep); return
+            if p[d] <= 0:
+                sig = "zero-probability-outcome" if u < tot else "zero-probability-outcome/fall-through"
+                ctx.violate(f"C14/{entry}/boundary-uniforms/{sig}",
+                            f"u={float(u)!r} -> outcome {d} of probability 0 (probs {np.asarray(p).tolist()}, float sum {tot!r})", rep)
+                if u < tot:
+                    return
+                continue
             if d != w:
                 ctx.violate(f"C14/{entry}/boundary-uniforms/wrong-interval",
                             f"u={float(u)!r} -> {d}, but u lies in the cumulative interval of outcome {w} (probs {np.asarray(p).tolist()})", rep); return
@@ -589,8 +643,14 @@ def experiment_boundary(ctx, seeds):
 # ----------------------------------------------------------------------------- oracle
 def oracle(ctx, volume=1):
     ctx.notes = ["that MT19937 / scipy.stats.multinomial sample the stated distribution is trusted; the 7-sigma frequency check in the oracle is a test, not a proof",
-                 "float rounding of the running cumulative sum is not modelled: theorems are over exact rationals, the correspondence uses dyadic vectors "
-                 "(exact float sums) on the boundaries and keeps 1e-9 away from them otherwise",
+                 "float rounding of the running cumulative sum: the exact-rational theorems (r2d_interval, r2d_pos, data_valid) do not transfer to floats; "
+                 "r2d_hit_nonzero_any_add does (any addition with add c 0 = c): only the fall-through can return a zero-probability outcome, and it does on "
+                 "the real code (open finding D19: p=[0.1]*10+[0.0], u=nextafter(1,0)); the correspondence runs the loop on the implementation's float running "
+                 "sums for every vector (op r2dcs, boundaries exact) and the exact model on dyadic vectors",
+                 "multinomial path: genEmpiSeq_valid holds under the trusted contract MultiOK of scipy's multinomial.rvs; no cumulative consistency there; the "
+                 "tomography layer is skeleton-matched + reference-stream oracle only",
+                 "seed arguments: Python int >= 0, Generator, None; anything else is handed on and fails (seed_other_rejected); invalid probability vectors raise "
+                 "before any draw in Python - the seed theorems are about valid vectors",
                  "generate_empi_dist_sequence_from_prob_dist draws an independent multinomial sample per sample size (not cumulative); cumulative consistency "
                  "is claimed and checked for calc_empi_dist_sequence only",
                  "calc_empi_dist_sequence silently returns [] when the first sample size is <= 0 (mirrored by the model: theorem empi_first_size_nonpositive; excluded by hypothesis in empi_counts / empi_ok_iff)"]
@@ -598,8 +658,8 @@ def oracle(ctx, volume=1):
     vecs = prob_vectors(ctx, g, (120 if ctx.quick else 1000) * volume)
     # (a) inversion: range, non-zero probability, the interval [c_{i-1}, c_i)
     for kind, p in vecs:
-        us = uniforms_for(kind, p, g, 20)
-        tot = float(np.cumsum(p)[-1])
+        us = uniforms_for(kind, p, g, 20, exact_boundaries=True)
+        tot = float_cums(p)[-1]
         for u in us:
             rep = {"kind": "r2d", "probs": p.tolist(), "u": u}
             try:
@@ -609,8 +669,13 @@ def oracle(ctx, volume=1):
             ctx.case(("o-r2d", tuple(p), u))
             if not (0 <= r < len(p)):
                 ctx.violate("C14/_random_number_to_data/out-of-range", f"returns {r} for {len(p)} outcomes", rep); break
-            if u < tot and p[r] <= 0:
-                ctx.violate("C14/_random_number_to_data/zero-probability-outcome", f"u={u!r} -> outcome {r} with probability 0 (probs {p.tolist()})", rep); break
+            if p[r] <= 0:
+                # a hit on a zero entry is never excusable; the fall-through (u not below the last FLOAT running sum) is D19
+                sig = "zero-probability-outcome" if u < tot else "zero-probability-outcome/fall-through"
+                ctx.violate(f"C14/_random_number_to_data/{sig}", f"u={u!r} -> outcome {r} with probability 0 (probs {p.tolist()}, float sum {tot!r})", rep)
+                if u < tot:
+                    break
+                continue
             if r != int(ref_invert(p, [u])[0]):
                 ctx.violate("C14/_random_number_to_data/wrong-interval", f"u={u!r} -> {r}, but u lies in the cumulative interval of outcome {int(ref_invert(p, [u])[0])}", rep); break
     # (b) generated data: valid, and exactly the inversion of the seed's uniform stream
